@@ -243,7 +243,7 @@ static void w_apply(mc_op_t o)
         SHIM_CALL(ab, t_swap());
         break;
     }
-    if (ab) MC_CHECK(PC01 | PC02 | PC15, 0, "unexpected %s inside the library: %s", ab == 2 ? "assertion failure" : "abort()", ab == 2 ? shim_assert_msg : "");
+    if (ab) MC_CHECK(PC01 | PC02 | PC15, 0, "unexpected %s inside the library: %s", ab == 3 ? "non-termination (a library call still running after 3 s)" : ab == 2 ? "assertion failure" : "abort()", ab == 2 ? shim_assert_msg : "");
 }
 
 /* ---- structural walk over the public struct (used for C02 and for the canonical key) ---- */
